@@ -13,3 +13,5 @@ import Verif.Model.TreeDist
 import Verif.Props.C15
 import Verif.Model.Heap
 import Verif.Props.C19
+import Verif.Model.Cache
+import Verif.Props.C20
